@@ -48,7 +48,8 @@ class P(ServeProp):
             else:
                 if rnd.random() < 0.5: hs.append(b"Origin: " + gs.gen_origin(rnd, origins).encode())
                 if rnd.random() < 0.3: hs.append(b"Range: " + rnd.choice(gs.RANGES).encode())
-            req = meth.encode() + b" " + tg.encode("utf-8", "surrogateescape") + b" HTTP/1.1\r\n" + b"".join(h + b"\r\n" for h in hs) + b"\r\n"
+            ver = rnd.choice(gs.VERSIONS).encode() if rnd.random() < 0.15 else b"HTTP/1.1"      # every supported version, in either letter case: the answer's status line does not follow it
+            req = meth.encode() + b" " + tg.encode("utf-8", "surrogateescape") + b" " + ver + b"\r\n" + b"".join(h + b"\r\n" for h in hs) + b"\r\n"
             if rnd.random() < 0.2:
                 # the form controllers and their error branches answer too (every response the server emits)
                 fm, ftg, fhs, fbody = self._c04.form_request(rnd)
